@@ -173,6 +173,13 @@ func (gs GenesisState) Validate() error {
 
 	}
 
+	for i, relayer := range gs.Relayers {
+		// InitGenesis stores every relayer under its address: an empty address is an empty store key (panic)
+		if err := relayer.Validate(); err != nil {
+			return fmt.Errorf("invalid relayer %v index %d: %w", relayer, i, err)
+		}
+	}
+
 	return host.ClientIdentifierValidator(gs.NativeChainName)
 }
 
